@@ -391,7 +391,7 @@ func cmdCheck(argv []string) int {
 	}
 
 	// ---- discharge
-	quickT, longT := 10, 60
+	quickT, longT := 15, 60
 	cross := false
 	if *tier == "thorough" {
 		quickT, longT = 60, 180
@@ -486,6 +486,11 @@ func cmdCheck(argv []string) int {
 	var retry []*Oblig
 	for _, o := range obs {
 		if !o.ok() && o.Result.Status != "sat" {
+			if o.IsCover {
+				// a reachability query: `unsat` is already decided, and one the solvers could not
+				// settle (models of quantified facts) rarely is by a longer run - it is not a verdict
+				continue
+			}
 			retry = append(retry, o)
 		}
 	}
@@ -697,8 +702,9 @@ func coverExpectedUnreachable(name string) bool {
 			}
 		}
 	}
+	// an entry names one cover obligation exactly; a trailing * makes it a prefix
 	for _, p := range unreachableList[1:] {
-		if strings.HasPrefix(name, p) {
+		if p == name || (strings.HasSuffix(p, "*") && strings.HasPrefix(name, strings.TrimSuffix(p, "*"))) {
 			return true
 		}
 	}
